@@ -89,7 +89,7 @@ USABLE_MIN = 0.70
 def plan(tier):
     if tier == 'thorough':
         return dict(shards=16, cases=18 * 20, timeout=3000, budget_s=840)
-    return dict(shards=8, cases=36, timeout=900, budget_s=100)
+    return dict(shards=8, cases=36, timeout=900, budget_s=75)
 
 
 # ================================================================================================
@@ -375,8 +375,9 @@ def _area_replay(case, img, g0, sample, mode, mech):
         case.note('area_replay_walk_differs_not_judged', 1)      # (sectors dropped at the frame border, ...)
         return
     q = 1.0 - g0.eps
-    nex = nar = nbil = 0
+    nex = nar = nbil = nlost = 0
     bad = None
+    bbox_subset = False
     for k, (phi, phi1, phi2, a1, a2, vx, vy) in enumerate(secs):
         i1, i2 = max(int(vx.min()) - 3, 0), min(int(vx.max()) + 4, nx)
         j1, j2 = max(int(vy.min()) - 3, 0), min(int(vy.max()) + 4, ny)
@@ -386,6 +387,13 @@ def _area_replay(case, img, g0, sample, mode, mech):
         sel = (pp >= phi1) & (pp < phi2) & (rp >= a1 * aux) & (rp < a2 * aux)
         v = np.sort(img[j1:j2, i1:i2][sel])
         n = len(v)
+        # subset inside the bounding box of the four sector vertices as the library scans it
+        # (range(int(min) - 1, int(max) + 1)): pixels of the outer arc beyond the vertices on the +x/+y side
+        # are outside that box
+        inbox = ((xx >= int(vx.min()) - 1) & (xx < int(vx.max()) + 1)
+                 & (yy >= int(vy.min()) - 1) & (yy < int(vy.max()) + 1))
+        vb = np.sort(img[j1:j2, i1:i2][sel & inbox])
+        nlost += int(n - len(vb))
         obs = inten[k]
         xb, yb = ref.from_polar_ref(rad[k], ang[k], g0.x0, g0.y0, g0.pa)
         bil = float(_bilinear(img, xb, yb)[0])
@@ -409,12 +417,22 @@ def _area_replay(case, img, g0, sample, mode, mech):
         nex += bool(exact)
         nar += bool(ok_area and not is_bil)
         nbil += bool(is_bil)
+        if not ok:
+            nb = len(vb)
+            if 6 < nb < n:
+                sub = (abs(obs - float(vb.mean())) <= 1e-12 * abs(obs)) if mode == 'mean' else (obs == vb[nb // 2])
+                bbox_subset = bbox_subset or bool(sub)
+            elif nb <= 6 and nb < n:
+                # the box subset is "6 or less pixels": the library's documented fallback is the bilinear value
+                bbox_subset = bbox_subset or bool(is_bil)
         if not ok and bad is None:
-            bad = dict(k=k, phi=phi, npix=n, obs=float(obs), bilinear=bil,
+            bad = dict(k=k, phi=phi, npix=n, npix_in_vertex_box=len(vb), obs=float(obs), bilinear=bil,
                        ref_mean=float(v.mean()) if n else None, ref_median=float(v[n // 2]) if n else None,
                        ref_min=float(v[0]) if n else None, ref_max=float(v[-1]) if n else None)
-    case.check(bad is None, 'area_value_vs_sector_pixels', mech, first_bad=bad, sectors=len(secs))
+    case.check(bad is None, 'area_value_vs_sector_pixels', dict(mech, equals_vertex_box_subset=bbox_subset),
+               first_bad=bad, sectors=len(secs))
     case.note('area_sectors_judged', len(secs))
+    case.note('area_sector_pixels_outside_vertex_box', nlost)
     case.note('area_sectors_exact', nex)
     case.note('area_sectors_area_path', nar)
     case.note('area_sectors_bilinear_path', nbil)
@@ -758,7 +776,7 @@ def _sample_case(case):
             _area_replay(case, img, g_before, s, mode, mech)
         _sample_checks(case, img, s, mode, dict(mech, via_geometry=via_geometry), spec=spec, judge_values=True,
                        astep=astep, linear=linear, other_smas=[sma * 0.5])
-        if s.total_points == s.actual_points and s.actual_points >= 20:
+        if s.total_points == s.actual_points and s.actual_points >= 30 and sma * (1.0 - spec['eps']) >= 2.5:
             ft = float(f(sma))
             r0 = float(ref.ellipse_polar_radius(sma, spec['eps'], s.values[0][0]))
             first_ok = abs(float(s.values[1][0]) - r0) <= 1e-12 * r0
